@@ -77,11 +77,16 @@ class LowerTry(Rule):
 
     In B every statement that calls a may-throw function gets `if (verif_exc) goto verif_catch_1;` appended, everywhere
     else (handlers, code before/after the try statement) `if (verif_exc) return RET;`.
-    Must-fire: the handler declarations must be exactly `handlers` (in order) and the number of may-throw call
-    statements exactly `ncalls`; a may-throw call that is not an expression statement is an extraction break."""
+    Gates (extraction break otherwise): the handler declarations must be exactly the multiset `handlers` (they are lowered in
+    source order -- the order decides which one runs); *every* call expression of the function must name a callee of `maythrow`
+    or `nothrow`, so no call can escape the propagation check (robust against statements being moved, added or removed, which
+    a fixed hit count is not); a may-throw call must be an expression statement; the protected block must contain at least
+    one may-throw call."""
 
-    def __init__(self, handlers, maythrow, ncalls, ret=''):
-        self.handlers, self.maythrow, self.ncalls, self.ret = handlers, maythrow, ncalls, ret
+    KEYWORDS = {'if', 'for', 'while', 'switch', 'catch', 'return', 'sizeof'}
+
+    def __init__(self, handlers, maythrow, nothrow, ret=''):
+        self.handlers, self.maythrow, self.nothrow, self.ret = handlers, maythrow, nothrow, ret
         self.pat = 'try/catch lowering'
 
     def _prop(self, seg, action, where):
@@ -104,6 +109,10 @@ class LowerTry(Rule):
 
     def apply(self, text, where=''):
         m = lex.mask(text)
+        for mo in re.finditer(r'\b([A-Za-z_]\w*)\s*\(', m):
+            if mo.group(1) not in self.KEYWORDS and mo.group(1) not in self.maythrow and mo.group(1) not in self.nothrow:
+                raise ExtractionBreak('%s: call of %s(...) is in neither the may-throw nor the no-throw table of the lowering'
+                                      % (where, mo.group(1)))
         tries = [mo.start() for mo in re.finditer(r'\btry\b', m)]
         if len(tries) != 1:
             raise ExtractionBreak('%s: expected exactly one try statement, found %d' % (where, len(tries)))
@@ -128,21 +137,20 @@ class LowerTry(Rule):
             he = lex.match_close(m, h)
             hs.append((' '.join(text[p + 1:pe].split()), text[h + 1:he]))
             k = he + 1
-        if [d for d, _ in hs] != self.handlers:
+        # the handlers are lowered in *source order* (the order decides which one runs); the table pins their declarations
+        if sorted(d for d, _ in hs) != sorted(self.handlers):
             raise ExtractionBreak('%s: handlers are %r, the lowering table expects %r' % (where, [d for d, _ in hs], self.handlers))
         ret = 'return %s;' % self.ret if self.ret else 'return;'
-        ncalls = 0
-        pre, n = self._prop(text[:t], 'if (verif_exc) %s' % ret, where)
-        ncalls += n
+        pre, _ = self._prop(text[:t], 'if (verif_exc) %s' % ret, where)
         body, n = self._prop(text[b + 1:be], 'if (verif_exc) goto verif_catch_1;', where)
-        ncalls += n
+        if n < 1:
+            raise ExtractionBreak('%s: the protected block contains no may-throw call' % where)
         out = pre + '{ /* protected block */' + body + '}\n  verif_catch_1:\n  if (!verif_exc) { /* protected block completed: no handler runs */ }\n'
         catch_all = False
         for d, htext in hs:
             if catch_all:
                 raise ExtractionBreak('%s: handler after catch (...)' % where)
-            htext, n = self._prop(htext, 'if (verif_exc) %s' % ret, where)
-            ncalls += n
+            htext, _ = self._prop(htext, 'if (verif_exc) %s' % ret, where)
             if d == '...':
                 cond, decl, catch_all = '1 /* handler for anything */', '', True
             else:
@@ -154,10 +162,7 @@ class LowerTry(Rule):
             out += '  else if (%s) {%s verif_exc = 0;%s}\n' % (cond, decl, htext)
         if not catch_all:
             out += '  else { %s /* no handler matches: the exception propagates */ }\n' % ret
-        post, n = self._prop(text[k:], 'if (verif_exc) %s' % ret, where)
-        ncalls += n
-        if ncalls != self.ncalls:
-            raise ExtractionBreak('%s: %d may-throw call statements, the lowering table expects %d' % (where, ncalls, self.ncalls))
+        post, _ = self._prop(text[k:], 'if (verif_exc) %s' % ret, where)
         return out + post
 
 
@@ -195,10 +200,14 @@ def generic_unit(ctx, src, base):
     return u
 
 
-STRING_RULES = [Rule('fn();', 'verif_call(fn);', count=1),
-                Rule('string msg = string_printf(', 'verif_string msg = verif_string_printf(', count=1),
-                Rule('e.what()', 'verif_what(e)', count=1),
-                Rule('msg.c_str()', 'verif_c_str(&msg)', count=1)]
+MAYTHROW = ['fn', 'expect_generic']
+# no-throw in the model: allocation failure inside string_printf / what() / c_str() is not modelled (ASSUMPTIONS)
+NOTHROW = ['string_printf', 'what', 'c_str']
+# type-directed rewrites of the std::function / std::string uses (any unrewritten use fails the goto-cc compile gate)
+STRING_RULES = [Rule('fn();', 'verif_call(fn);', count='+'),
+                Rule('string msg = string_printf(', 'verif_string msg = verif_string_printf('),
+                Rule('e.what()', 'verif_what(e)'),
+                Rule('msg.c_str()', 'verif_c_str(&msg)')]
 ER_HEADER = 'void ER_NAME(const char* file, uint64_t line, verif_function fn)'
 ER_ARGS = r'\(const char\* file, uint64_t line, std::function<void\(\)> fn\)'
 
@@ -206,11 +215,11 @@ ER_ARGS = r'\(const char\* file, uint64_t line, std::function<void\(\)> fn\)'
 def raises_units(ctx, src):
     ut = Unit(ctx, 'expect_raises')          # the template, one textual copy; ExcT stays a macro name (EXC_ExcT via -D)
     ut.function(src, HH, r'void expect_raises_fn' + ER_ARGS, new_header=ER_HEADER,
-                rules=[LowerTry(['const ExcT&', 'const exception& e', '...'], ['fn', 'expect_generic'], ncalls=4)] + STRING_RULES)
+                rules=[LowerTry(['const ExcT&', 'const exception& e', '...'], MAYTHROW, NOTHROW)] + STRING_RULES)
     ut.write(suffix='.inc')
     us = Unit(ctx, 'expect_raises_exception')  # the explicit specialisation for std::exception
     us.function(src, CC, r'void expect_raises_fn<std::exception>' + ER_ARGS, new_header=ER_HEADER,
-                rules=[LowerTry(['const exception& e', '...'], ['fn', 'expect_generic'], ncalls=3), STRING_RULES[0]])
+                rules=[LowerTry(['const exception& e', '...'], MAYTHROW, NOTHROW), STRING_RULES[0]])
     us.write(suffix='.inc')
     # the specialisation must be declared in the header, otherwise the primary template would be instantiated for std::exception
     us.snippet(src, HH, r'template <>\s*void expect_raises_fn<std::exception>\(const char\* file, uint64_t line, std::function<void\(\)> fn\);')
@@ -307,11 +316,12 @@ def plan(ctx):
                             clause_note='contracts/C19_unittest.h: returns normally iff fn threw t <: E, otherwise expectation_failed with the caller\'s file/line',
                             replay=Replay(mode='expect_raises', extra=[e], **RP)))
     for n in RELS:
-        for ty in ('int64_t', 'double'):
+        for ty in ('int64_t', 'double', 'uint64_t', 'int8_t', 'float'):
             groups.append(Group(name='UnitTest.macro.expect_%s[%s]' % (n, ty), harness='harness/C19/macros.c', entry='h_macro_' + n,
                                 function='expect_%s' % n, replace=['expect_generic'], kind='lemma', defines=['T=' + ty], min_post=6,
                                 clause_note='the verbatim macro throws (through the contract of expect_generic) iff !(a %s b), with __FILE__/__LINE__ of the call, '
                                             'the message #a " %s " #b, each operand evaluated once' % RELS[n],
+                                tier='quick' if ty in ('int64_t', 'double') else 'thorough',
                                 replay=Replay(mode='macro', extra=[n, ty], **RP)))
     groups.append(Group(name='UnitTest.macro.expect', harness='harness/C19/macros.c', entry='h_macro_expect', function='expect',
                         replace=['expect_generic'], kind='lemma', defines=['T=int64_t'], min_post=5,
@@ -326,7 +336,7 @@ def plan(ctx):
     return groups
 
 
-REPLAY_SOURCES = ['src/UnitTest.cc', 'src/Strings.cc']
+REPLAY_SOURCES = ['src/UnitTest.cc', 'src/Strings.cc', 'src/Filesystem.cc', 'src/Process.cc', 'src/Time.cc']
 
 CLAIMED = True
 MANIFEST = dict(
